@@ -1,11 +1,11 @@
 #!/usr/bin/env python3
 """Generates /verif/MANIFEST.json from the table below (kept valid at all times)."""
 import json, subprocess
-CHECKS = {
- "C23": ("sweep", "Complete enumeration of all 495 functions x 5 languages, 12 error kinds x (5 languages + xlsx form): every localized / xlsx name is looked up and parsed back by the real lexer/parser and a one-cell package is imported; the space is finite and is covered entirely, so within the enumerated domain this is a decision, not a sample.",
-         "Function::into_iter() is complete; the 12 error kinds are listed by hand.",
-         "exhaustive enumeration of a finite domain against the real parser/importer", "3 C23"),
-}
+import os,glob
+CHECKS = {}
+for f in sorted(glob.glob('/verif/meta/C*.json')):
+    m=json.load(open(f))
+    CHECKS[os.path.basename(f)[:-5]]=(m["engine"],m["text"],m["note"],m["technique"],m["design_ref"])
 NOT_APPLICABLE = {}
 def main():
     props=[json.loads(l) for l in open('/verif/properties.jsonl')]
